@@ -10,6 +10,13 @@
 open Model
 open Util
 
+module Str_index = struct
+  let find (s : string) (sub : string) : int =
+    let n = String.length s and m = String.length sub in
+    let rec go i = if i + m > n then n else if String.sub s i m = sub then i else go (i + 1) in
+    go 0
+end
+
 let rec nat_of (i : int) : nat = if i <= 0 then O else S (nat_of (i - 1))
 let rec int_of_nat (n : nat) : int = match n with O -> 0 | S k -> 1 + int_of_nat k
 let ni = n_of_int
@@ -80,12 +87,12 @@ let res_code name = ni (match name with
 
 (* ---------------------------------------------------------------- P *)
 
-type pcase = { p_enc : bool; p_exp : bool; p_win : rx; p_pre : exch option list; p_msg : msg }
+type pcase = { p_enc : bool; p_grp : bool; p_exp : bool; p_win : rx; p_pre : exch option list; p_msg : msg }
 
 let parse_msg ~key ~enc s : msg =
   match String.split_on_char ':' s with
   | [ctr; exid; ir; op; rel; ack] ->
-      { m_key = key; m_enc = enc; m_ctr = n_of_string ctr; m_exid = n_of_string exid; m_init = (ir = "i");
+      { m_key = key; m_enc = enc; m_group = false; m_ctr = n_of_string ctr; m_exid = n_of_string exid; m_init = (ir = "i");
         m_op = op_of_char op.[0]; m_rel = (rel = "1"); m_ack = (if ack = "-" then None else Some (n_of_string ack)) }
   | _ -> failwith ("bad msg " ^ s)
 
@@ -95,13 +102,13 @@ let parse_p fields : pcase =
   let win = match String.split_on_char ':' (get fm "win" "0:0:0") with
     | [s; m; b] -> { synced = (s = "1"); max_ctr = n_of_string m; bitmap = n_of_string b }
     | _ -> failwith "bad win" in
-  { p_enc = enc; p_exp = get fm "exp" "0" = "1"; p_win = win;
+  { p_enc = enc; p_grp = get fm "grp" "0" = "1"; p_exp = get fm "exp" "0" = "1"; p_win = win;
     p_pre = List.map (parse_slot ~flag:false) (split_on ',' (get fm "pre" ""));
     p_msg = parse_msg ~key:(ni 5) ~enc (get fm "msg" "") }
 
 let run_p fields =
   let c = parse_p fields in
-  let s = { s_id = ni 7; s_key = ni 5; s_enc = c.p_enc; s_expired = c.p_exp; s_win = c.p_win; s_exchs = c.p_pre } in
+  let s = { s_id = ni 7; s_key = ni 5; s_enc = c.p_enc; s_group = c.p_grp; s_expired = c.p_exp; s_win = c.p_win; s_exchs = c.p_pre } in
   let (s', r) = session_post_recv s c.p_msg N0 in
   Printf.sprintf "%s [%s] w=%d:%s:%s" (res_name r) (slots_str ~flag:false (trim_free s'.s_exchs))
     (if s'.s_win.synced then 1 else 0) (sn s'.s_win.max_ctr) (sn s'.s_win.bitmap)
@@ -125,7 +132,7 @@ let spec_p fields impl =
 
 let state_str (s : sys) (hs : (n * nat) option list) =
   let sess = List.map (fun se ->
-    Printf.sprintf "S%sk%s%c%c[%s]" (sn se.s_id) (sn se.s_key) (if se.s_enc then 'e' else 'u')
+    Printf.sprintf "S%sk%s%c%c[%s]" (sn se.s_id) (sn se.s_key) (if se.s_group then 'g' else if se.s_enc then 'e' else 'u')
       (if se.s_expired then 'x' else '-') (slots_str ~flag:true (trim_free se.s_exchs))) s.sessions in
   let rx = match s.rx0 with
     | RxEmpty -> "E"
@@ -158,29 +165,42 @@ let rx_label (s : sys) arg : msg =
         | "-" -> None
         | "@" -> Some base
         | _ -> Some (N.add base (ni 1000)) in
-      { m_key = key; m_enc = (int_of_n key < 10); m_ctr = n_of_string ctr; m_exid = exid; m_init = init;
+      { m_key = key; m_enc = (int_of_n key < 10); m_group = (int_of_n key = 9); m_ctr = n_of_string ctr; m_exid = exid; m_init = init;
         m_op = op_of_char op.[0]; m_rel = (rel = "1"); m_ack = ack }
   | _ -> failwith ("bad rx op " ^ arg)
 
 let nth_opt l i = try List.nth l i with _ -> None
 
 let run_s ops =
-  let st = ref (sys_init N0) in
+  (* the transport with its TX buffer (Model/ExchangeTx.v) *)
+  let st = ref (sysx_init N0) in
   let hs : (n * nat) option list ref = ref [] in
   let fresh = ref 5000 in
   let buf = Buffer.create 1024 in
-  let do_step l = match step false !st l with
+  let do_x l = match stepx false !st l with
     | Some (s', ev) -> st := s'; Some ev
     | None -> None in
+  let core_ev ev = List.filter_map (fun e -> match e with XEv e -> Some e | _ -> None) ev in
+  let do_step l = match do_x (XCore l) with Some ev -> Some (core_ev ev) | None -> None in
+  let flush () = match do_x XFlush with
+    | Some [XWire _] -> "sent"
+    | Some [XTxNoSession _] -> "dropped"
+    | _ -> "no" in
+  let state () =
+    let txs = match !st.tx with TxEmpty -> "E" | TxQueued _ -> "Q" | TxTaken _ -> "T" in
+    let base = state_str !st.core !hs in
+    (* insert |tx=..| before |h= *)
+    let i = Str_index.find base "|h=" in
+    String.sub base 0 i ^ "|tx=" ^ txs ^ String.sub base i (String.length base - i) in
   List.iter (fun op ->
     let kind = op.[0] and arg = String.sub op 1 (String.length op - 1) in
     let res = match kind with
-      | '+' -> (match do_step (LAddSession (n_of_string arg, true)) with Some _ -> "ok" | None -> "err")
+      | '+' -> (match do_step (LAddSession (n_of_string arg, true, false)) with Some _ -> "ok" | None -> "err")
       | '-' -> (match do_step (LRemoveSession (n_of_string arg)) with Some _ -> "ok" | None -> "na")
       | 'x' -> (match do_step (LExpireSession (n_of_string arg)) with Some _ -> "ok" | None -> "na")
       | 't' -> ignore (do_step (LTick (n_of_string arg))); "ok"
       | 'r' ->
-          let m = rx_label !st arg in
+          let m = rx_label !st.core arg in
           (match do_step (LRx m) with
            | None -> "busy"
            | Some ev ->
@@ -202,7 +222,7 @@ let run_s ops =
           (match nth_opt !hs (int_of_string arg) with
            | None -> "na"
            | Some (sid, idx) ->
-               (match !st.rx0 with
+               (match !st.core.rx0 with
                 | RxTaken (_, s2, i2) when s2 = sid && i2 = idx -> "holds"
                 | _ ->
                     (match do_step (LRecv (sid, idx)) with
@@ -223,34 +243,44 @@ let run_s ops =
                ignore (do_step (LDropExch (sid, idx)));
                hs := List.mapi (fun i o -> if i = n then None else o) !hs;
                "ok")
-      | 's' ->
+      | 's' | 'q' ->
           (match String.split_on_char ':' arg with
            | [n; rel] ->
                (match nth_opt !hs (int_of_string n) with
                 | None -> "na"
                 | Some (sid, idx) ->
-                    (* the counter of a send: the pending retransmission's, else a fresh one *)
-                    let e = match find_sid !st.sessions sid with
+                    (* Exchange::init_send lets go of the RxMessage first *)
+                    ignore (do_step (LRxDone (sid, idx)));
+                    let e = match find_sid !st.core.sessions sid with
                       | Some se -> (match nth_error se.s_exchs idx with Some (Some e) -> Some e | _ -> None)
                       | None -> None in
                     let pending = match e with Some e -> e.e_mrp.rm_retr | None -> None in
+                    (* the counter of a send: the pending retransmission's, else a fresh one *)
                     let ctr = match pending with
                       | Some r -> r.r_ctr
                       | None -> incr fresh; ni !fresh in
                     let gives_up = match pending with
                       | Some r -> rel = "1" && int_of_n r.r_count >= 5
                       | None -> false in
-                    (match do_step (LSend (sid, idx, ctr, rel = "1")) with
-                     | Some _ -> if gives_up then "timeout" else "ok"
-                     | None -> "no"))
+                    let can_send = match find_sid !st.core.sessions sid, e with
+                      | Some se, Some _ -> not se.s_group
+                      | _, _ -> false in
+                    let r = match do_x (XInitSend (sid, idx)) with
+                      | None -> "no"     (* buffer busy, or NoSession *)
+                      | Some _ ->
+                          ignore (do_x (XComplete (sid, idx, ctr, rel = "1")));
+                          if not can_send then "no" else if gives_up then "timeout" else "ok" in
+                    if kind = 's' then ignore (flush ());
+                    r)
            | _ -> "?")
+      | 'F' -> flush ()
       | 'i' ->
           (match String.split_on_char ':' arg with
            | [sid; al] ->
                let sid = n_of_string sid in
                (match do_step (LInitiate (sid, n_of_string al)) with
                 | Some _ ->
-                    (match !st.handles with
+                    (match !st.core.handles with
                      | (s2, idx) :: _ ->
                          hs := !hs @ [Some (s2, idx)];
                          Printf.sprintf "ini:%s.%d" (sn s2) (int_of_nat idx)
@@ -260,21 +290,26 @@ let run_s ops =
       | 'W' -> (match do_step LSweepAccept with Some _ -> "fired" | None -> "no")
       | 'O' -> (match do_step LSweepOrphan with Some _ -> "fired" | None -> "no")
       | 'C' ->
-          (match do_step LCloseDropped with
-           | Some ev ->
-               (match ev with
-                | [EvStandaloneAck _] -> "closed:sack"
-                | [EvCloseSession _] -> "closed:close"
-                | _ -> "closed:none")
-           | None -> "idle:none")
+          (* the closer waits for the TX buffer; what it queues is sent at once here *)
+          (match !st.tx with
+           | TxEmpty ->
+               (match do_step LCloseDropped with
+                | Some ev ->
+                    ignore (flush ());
+                    (match ev with
+                     | [EvStandaloneAck _] -> "closed:sack"
+                     | [EvCloseSession _] -> "closed:close"
+                     | _ -> "closed:none")
+                | None -> "idle:none")
+           | _ -> "txbusy")
       | _ -> "?" in
-    Buffer.add_string buf (Printf.sprintf "%s@%s " res (state_str !st !hs))) (split_on ';' ops);
+    Buffer.add_string buf (Printf.sprintf "%s@%s " res (state ()))) (split_on ';' ops);
   String.trim (Buffer.contents buf)
 
 (* ---- S spec: parse the implementation's states back and evaluate the clauses *)
 
 let parse_state (str : string) : sys * (n * nat) option list =
-  match String.split_on_char '|' str with
+  match List.filter (fun f -> not (String.length f > 3 && String.sub f 0 3 = "tx=")) (String.split_on_char '|' str) with
   | [sess; rx; h] ->
       let sessions = List.map (fun s ->
         (* S<sid>k<key><e|u><x|->[slots] *)
@@ -282,9 +317,10 @@ let parse_state (str : string) : sys * (n * nat) option list =
         let lb = String.index s '[' in
         let sid = n_of_string (String.sub s 1 (kpos - 1)) in
         let key = n_of_string (String.sub s (kpos + 1) (lb - kpos - 3)) in
-        let enc = s.[lb - 2] = 'e' and exp = s.[lb - 1] = 'x' in
+        let grp = s.[lb - 2] = 'g' in
+        let enc = s.[lb - 2] = 'e' || grp and exp = s.[lb - 1] = 'x' in
         let slots = String.sub s (lb + 1) (String.length s - lb - 2) in
-        { s_id = sid; s_key = key; s_enc = enc; s_expired = exp; s_win = rx_unsynced;
+        { s_id = sid; s_key = key; s_enc = enc; s_group = grp; s_expired = exp; s_win = rx_unsynced;
           s_exchs = List.map (parse_slot ~flag:true) (split_on ',' slots) }) (split_on ';' sess) in
       let rxv = String.sub rx 3 (String.length rx - 3) in
       let hsl = List.map (fun x -> if x = "x" then None else
@@ -293,10 +329,10 @@ let parse_state (str : string) : sys * (n * nat) option list =
         | _ -> None) (split_on ',' (String.sub h 2 (String.length h - 2))) in
       let live = List.filter_map (fun x -> x) hsl in
       let rxs = if rxv = "E" then RxEmpty
-        else if rxv = "T" then RxTaken ({ m_key = N0; m_enc = true; m_ctr = N0; m_exid = N0; m_init = true;
+        else if rxv = "T" then RxTaken ({ m_key = N0; m_enc = true; m_group = false; m_ctr = N0; m_exid = N0; m_init = true;
                                           m_op = OpOrdinary; m_rel = false; m_ack = None }, N0, O)
         else match String.split_on_char ':' (String.sub rxv 1 (String.length rxv - 1)) with
-          | [k; e; ir] -> RxHolding { m_key = n_of_string k; m_enc = true; m_ctr = N0; m_exid = n_of_string e;
+          | [k; e; ir] -> RxHolding { m_key = n_of_string k; m_enc = true; m_group = (k = "9"); m_ctr = N0; m_exid = n_of_string e;
                                       m_init = (ir = "i"); m_op = OpOrdinary; m_rel = false; m_ack = None }
           | _ -> failwith "bad rx" in
       ({ sessions; rx0 = rxs; handles = live; now = N0; next_sid = N0 }, hsl)
@@ -328,7 +364,7 @@ let spec_s ops impl =
             (match String.split_on_char ':' arg with
              | [key; ctr; exid; ir; o; rel; _] ->
                  (* initiator aliases: the implementation prints aliases in its tables, so the alias is the id *)
-                 LRx { m_key = n_of_string key; m_enc = (int_of_string key < 10); m_ctr = n_of_string ctr;
+                 LRx { m_key = n_of_string key; m_enc = (int_of_string key < 10); m_group = (key = "9"); m_ctr = n_of_string ctr;
                        m_exid = n_of_string exid; m_init = (ir = "i"); m_op = op_of_char o.[0]; m_rel = (rel = "1");
                        m_ack = None }
              | _ -> quiet)
@@ -393,6 +429,321 @@ let spec_s ops impl =
   end;
   if !viol = [] then "ok" else String.concat "," (List.rev !viol)
 
+(* ---------------------------------------------------------------- E: prediction
+
+   A discrete-event interpretation of an end-to-end script over the extracted [step]: the network
+   and every computation are instantaneous, datagrams for the device queue up while its RX buffer
+   is occupied, sweepers and the closer run as soon as they are enabled, handlers are polled in
+   index order.  Hand-written and trusted like the rest of this driver; it re-states the handler
+   behaviours of harness/src/bin/c10.rs.  Only scenarios marked det=1 are compared. *)
+
+type meta = { tag : int; beh : int; arg : int; origin : int (* 0 controller, 1/2 ghost session, 9 group *) }
+type dgram = { dm : msg; dmeta : meta option }
+
+type hst =
+  | Idle
+  | Fresh of (n * nat)
+  | SendWait of (n * nat) * int          (* reliable reply out; give-up time *)
+  | AbandonAt of (n * nat) * int
+  | HoldUntil of (n * nat) * int * meta
+  | Wait2 of (n * nat) * int
+  | SleepEnd of (n * nat) * int
+  | SleepEcho of (n * nat) * int * meta
+
+type handler = { kind : char; delay : int; mutable first : bool; mutable hs : hst }
+
+type eop =
+  | EGhost of int * int * bool * bool * char * int * int   (* sess exid init rel op beh arg *)
+  | EGroup of int * bool * int * int                        (* exid rel beh arg *)
+  | EAck of int * int * bool
+  | EWait of int
+  | EProbeA of int
+  | EProbeG of int * int
+
+let key_of_sess s = if s = 0 then 2 else if s = 9 then 9 else 10 + s
+let giveup_ms = 1400   (* the device's retransmission ladder with an 80 ms base interval ends after about 1.4 s *)
+
+let predict_e fields =
+  let fm = field_map fields in
+  let handlers = Array.of_list (List.map (fun h ->
+    { kind = h.[0]; delay = (try int_of_string (String.sub h 1 (String.length h - 1)) with _ -> 0); first = true; hs = Idle })
+    (List.filter (fun x -> x <> "") (String.split_on_char '.' (get fm "h" "")))) in
+  let autoack = get fm "ga" "1" = "1" in
+  let script = List.filter_map (fun o ->
+    if o = "" then None else
+    let p = Array.of_list (String.split_on_char ':' (String.sub o 1 (String.length o - 1))) in
+    let i k = int_of_string p.(k) in
+    match o.[0] with
+    | 'g' -> Some (EGhost (i 0, i 1, p.(2) = "i", p.(3) = "1", p.(4).[0], i 5, i 6))
+    | 'x' -> Some (EGroup (i 0, p.(1) = "1", i 2, i 3))
+    | 'a' -> Some (EAck (i 0, i 1, p.(2) = "i"))
+    | 'w' -> Some (EWait (i 0))
+    | 'p' | 'P' -> Some (EProbeA (i 0))
+    | 'q' | 'Q' -> Some (EProbeG (i 0, i 1))
+    | _ -> None) (String.split_on_char ';' (get fm "s" "")) in
+  (* --- the device *)
+  let st = ref (sys_init N0) in
+  let now = ref 0 in
+  let step_l l = match step false !st l with Some (s', ev) -> st := s'; Some ev | None -> None in
+  let tick_to t = if t > !now then begin ignore (step_l (LTick (ni (t - !now)))); now := t end in
+  List.iter (fun k -> ignore (step_l (LAddSession (ni k, true, false)))) [2; 11; 12];
+  let inq : dgram Queue.t = Queue.create () in
+  let slot_meta : meta option ref = ref None in
+  let deliv : (int * string) list ref = ref [] in
+  let replies : int list ref = ref [] in
+  let xdrop = ref 0 in
+  let fresh_tx = ref 5000 in
+  let ctr_of = Hashtbl.create 8 in     (* counters of the peers, per key *)
+  let next_ctr key = let c = (try Hashtbl.find ctr_of key with Not_found -> (if key = 2 then 100 else if key = 9 then 9000 else if key = 11 then 1000 else 5000)) + 1 in
+    Hashtbl.replace ctr_of key c; c in
+  let last_dev : (int * int, n) Hashtbl.t = Hashtbl.create 8 in   (* last counter the device used on (key, exid) *)
+  let probe_answered : int list ref = ref [] in
+  let opened : (int * int * int) list ref = ref [] in   (* reliable ghost openers: (tag, key, exid) *)
+  let answered_ex : (int * int) list ref = ref [] in    (* (key, exid) the device sent something on *)
+  let closed_keys : int list ref = ref [] in
+  let mk_msg key exid init rel op ack =
+    { m_key = ni key; m_enc = true; m_group = (key = 9); m_ctr = ni (next_ctr key); m_exid = ni exid; m_init = init;
+      m_op = op_of_char op; m_rel = rel; m_ack = ack } in
+  let exch_of (sid, idx) = match find_sid !st.sessions sid with
+    | Some se -> (match nth_error se.s_exchs idx with Some (Some e) -> Some (se, e) | _ -> None)
+    | None -> None in
+  let ident h = match exch_of h with
+    | Some (se, e) -> let k = int_of_n se.s_key in
+        Printf.sprintf "%d:%d:%c" k (if k = 2 then 65535 else int_of_n e.e_id) (fst (role_chars e.e_role))
+    | None -> "0:0:?" in
+  (* the device sends on the exchange of [h]; acknowledgements of the peers come back through the queue *)
+  let dev_send h rel (echo : meta option) =
+    match exch_of h with
+    | None -> ()
+    | Some (se, e) ->
+        let key = int_of_n se.s_key and exid = int_of_n e.e_id in
+        let ctr = match e.e_mrp.rm_retr with Some r -> r.r_ctr | None -> incr fresh_tx; ni !fresh_tx in
+        (match step_l (LSend (fst h, snd h, ctr, rel)) with
+         | Some _ when not se.s_group ->
+             Hashtbl.replace last_dev (key, exid) ctr;
+             answered_ex := (key, exid) :: !answered_ex;
+             (match echo with
+              | Some m ->
+                  if m.origin = 0 then probe_answered := m.tag :: !probe_answered
+                  else replies := m.tag :: !replies
+              | None -> ());
+             let peer_acks = (key = 2) || (autoack && (key = 11 || key = 12)) in
+             if rel && peer_acks then
+               Queue.add { dm = mk_msg key exid (is_responder e.e_role) false 'a' (Some ctr); dmeta = None } inq
+         | _ -> ()) in
+  let drop_h h = ignore (step_l (LDropExch (fst h, snd h))) in
+  let session_gone h = match find_sid !st.sessions (fst h) with None -> true | Some _ -> false in
+  let retrans_pending_h h = match exch_of h with
+    | Some (_, e) -> (match e.e_mrp.rm_retr with Some _ -> true | None -> false)
+    | None -> false in
+  let log_delivery h =
+    (match !slot_meta with
+     | Some m -> deliv := (m.tag, Printf.sprintf "%d>%s" m.tag (ident h)) :: !deliv
+     | None -> ());
+    !slot_meta in
+  let try_recv h = match step_l (LRecv (fst h, snd h)) with
+    | Some [EvDeliver _] -> true
+    | _ -> false in
+  let rx_done h = ignore (step_l (LRxDone (fst h, snd h))) in
+  (* one handler makes progress if it can *)
+  let progress (h : handler) : bool =
+    match h.hs with
+    | Idle ->
+        (match !st.rx0 with
+         | RxHolding m ->
+             (match owner_of !st.sessions m with
+              | Some ((_, _), e) when is_pending e.e_role && !now >= int_of_n e.e_rat + h.delay ->
+                  (match step_l LAccept with
+                   | Some ev ->
+                       (match List.find_opt (fun e -> match e with EvAccept _ -> true | _ -> false) ev with
+                        | Some (EvAccept (sid, idx, _)) ->
+                            if h.kind = 'x' || (h.kind = 'y' && h.first) then begin
+                              h.first <- false; incr xdrop; drop_h (sid, idx)
+                            end else h.hs <- Fresh (sid, idx);
+                            true
+                        | _ -> false)
+                   | None -> false)
+              | _ -> false)
+         | _ -> false)
+    | Fresh hd ->
+        if try_recv hd then begin
+          let m = log_delivery hd in
+          (match m with
+           | None -> rx_done hd; drop_h hd; h.hs <- Idle
+           | Some m ->
+               if m.beh <> 4 then rx_done hd;
+               (match m.beh with
+                | 1 -> dev_send hd true (Some m); h.hs <- SendWait (hd, !now + giveup_ms)
+                | 2 -> drop_h hd; h.hs <- Idle
+                | 3 -> dev_send hd true (Some m); h.hs <- AbandonAt (hd, !now + m.arg)
+                | 4 -> h.hs <- HoldUntil (hd, !now + m.arg, m)
+                | 5 -> h.hs <- Wait2 (hd, !now + m.arg)
+                | 6 -> dev_send hd false None; h.hs <- SleepEnd (hd, !now + m.arg)
+                | 7 -> h.hs <- SleepEcho (hd, !now + m.arg, m)
+                | _ -> drop_h hd; h.hs <- Idle));
+          true
+        end else if session_gone hd then begin drop_h hd; h.hs <- Idle; true end
+        else false
+    | SendWait (hd, t) ->
+        if session_gone hd || not (retrans_pending_h hd) then begin drop_h hd; h.hs <- Idle; true end
+        else if !now >= t then begin
+          (* retransmissions until the entry gives up *)
+          let guard = ref 0 in
+          while retrans_pending_h hd && !guard < 8 do dev_send hd true None; incr guard done;
+          drop_h hd; h.hs <- Idle; true
+        end else false
+    | AbandonAt (hd, t) ->
+        if session_gone hd || not (retrans_pending_h hd) || !now >= t then begin drop_h hd; h.hs <- Idle; true end
+        else false
+    | HoldUntil (hd, t, m) ->
+        if !now >= t then begin
+          rx_done hd; dev_send hd true (Some m); h.hs <- SendWait (hd, !now + giveup_ms); true
+        end else false
+    | Wait2 (hd, t) ->
+        if session_gone hd then begin drop_h hd; h.hs <- Idle; true end
+        else if try_recv hd then begin
+          ignore (log_delivery hd); rx_done hd; dev_send hd false None; drop_h hd; h.hs <- Idle; true
+        end else if !now >= t then begin drop_h hd; h.hs <- Idle; true end
+        else false
+    | SleepEnd (hd, t) -> if !now >= t then begin drop_h hd; h.hs <- Idle; true end else false
+    | SleepEcho (hd, t, m) ->
+        if !now >= t then begin dev_send hd false (Some m); drop_h hd; h.hs <- Idle; true end else false in
+  let quiesce () =
+    let again = ref true in
+    let fuel = ref 10000 in
+    while !again && !fuel > 0 do
+      again := false; decr fuel;
+      (* process_rx *)
+      (match !st.rx0 with
+       | RxEmpty when not (Queue.is_empty inq) ->
+           let d = Queue.pop inq in
+           (match step_l (LRx d.dm) with
+            | Some ev ->
+                List.iter (fun e -> match e with
+                  | EvKeep _ -> slot_meta := d.dmeta
+                  | EvNoSpaceClose sid | EvPeerClosed sid -> ignore sid; closed_keys := int_of_n d.dm.m_key :: !closed_keys
+                  | EvDupAck _ -> answered_ex := (int_of_n d.dm.m_key, int_of_n d.dm.m_exid) :: !answered_ex
+                  | _ -> ()) ev
+            | None -> ());
+           again := true
+       | _ -> ());
+      (* sweepers and closer *)
+      (match step_l LSweepOrphan with Some _ -> again := true | None -> ());
+      (match step_l LSweepAccept with Some _ -> again := true | None -> ());
+      (match step_l LCloseDropped with
+       | Some ev ->
+           List.iter (fun e -> match e with
+             | EvStandaloneAck (sid, idx, _) -> ignore idx;
+                 (* which exchange: the closer does not tell, but an acknowledgement on the wire is
+                    what `unacked` looks for: mark every exchange of that session as answered *)
+                 (match find_sid !st.sessions sid with
+                  | Some se -> answered_ex := (int_of_n se.s_key, -1) :: !answered_ex
+                  | None -> ())
+             | EvCloseSession (sid, _) -> ignore sid
+             | _ -> ()) ev;
+           again := true
+       | None -> ());
+      Array.iter (fun h -> if progress h then again := true) handlers
+    done in
+  (* the next instant at which something can become enabled by the passing of time alone *)
+  let next_time () =
+    let c = ref max_int in
+    let add t = if t > !now && t < !c then c := t in
+    Array.iter (fun h -> match h.hs with
+      | SendWait (_, t) | AbandonAt (_, t) | HoldUntil (_, t, _) | Wait2 (_, t) | SleepEnd (_, t) | SleepEcho (_, t, _) -> add t
+      | _ -> ()) handlers;
+    (match !st.rx0 with
+     | RxHolding m ->
+         (match owner_of !st.sessions m with
+          | Some ((_, _), e) when is_pending e.e_role ->
+              add (int_of_n e.e_rat + 1000);
+              Array.iter (fun h -> if h.hs = Idle then add (int_of_n e.e_rat + h.delay)) handlers
+          | _ -> ())
+     | _ -> ());
+    !c in
+  let run_until t =
+    quiesce ();
+    let continue_ = ref true in
+    while !continue_ do
+      let n = next_time () in
+      if n <= t then begin tick_to n; quiesce () end else continue_ := false
+    done;
+    tick_to t; quiesce () in
+  (* --- the script *)
+  let probes = ref [] in
+  let fresh_exid = ref 0x7000 in
+  let a_exid = ref 0x9000 in
+  let inject_ghost tag sess exid init rel op beh arg =
+    let key = key_of_sess sess in
+    Queue.add { dm = mk_msg key exid init rel op None; dmeta = Some { tag; beh; arg; origin = sess } } inq;
+    if init && rel && (op = 'o' || op = 'n') then opened := (tag, key, exid) :: !opened in
+  List.iteri (fun i op ->
+    match op with
+    | EGhost (sess, exid, init, rel, op, beh, arg) -> inject_ghost i sess exid init rel op beh arg
+    | EGroup (exid, rel, beh, arg) ->
+        Queue.add { dm = mk_msg 9 exid true rel 'o' None; dmeta = Some { tag = i; beh; arg; origin = 9 } } inq
+    | EAck (sess, exid, init) ->
+        let key = key_of_sess sess in
+        let ack = (try Some (Hashtbl.find last_dev (key, exid)) with Not_found -> None) in
+        Queue.add { dm = mk_msg key exid init false 'a' ack; dmeta = None } inq
+    | EWait ms -> run_until (!now + ms)
+    | EProbeA timeout ->
+        let t0 = !now in
+        incr a_exid;
+        Queue.add { dm = mk_msg 2 !a_exid true true 'o' None; dmeta = Some { tag = i; beh = 1; arg = 0; origin = 0 } } inq;
+        quiesce ();
+        let ok = ref (List.mem i !probe_answered) in
+        while not !ok && !now < t0 + timeout do
+          let n = min (next_time ()) (t0 + timeout) in
+          tick_to n; quiesce (); ok := List.mem i !probe_answered
+        done;
+        probes := (if !ok then "ok" else "unanswered") :: !probes
+    | EProbeG (sess, timeout) ->
+        let t0 = !now in
+        incr fresh_exid;
+        let key = key_of_sess sess in
+        (match find_key_sess !st (ni key) with
+         | Some se when not se.s_expired ->
+             inject_ghost i sess !fresh_exid true true 'o' 1 0;
+             quiesce ();
+             let ok = ref (List.mem i !replies) in
+             while not !ok && !now < t0 + timeout do
+               let n = min (next_time ()) (t0 + timeout) in
+               tick_to n; quiesce (); ok := List.mem i !replies
+             done;
+             (* without automatic acknowledgements the ghost acknowledges the answer to its probe itself *)
+             if !ok && not autoack then begin
+               let ack = (try Some (Hashtbl.find last_dev (key, !fresh_exid)) with Not_found -> None) in
+               Queue.add { dm = mk_msg key !fresh_exid true false 'a' ack; dmeta = None } inq
+             end;
+             probes := (if !ok then "ok" else "unanswered") :: !probes
+         | _ ->
+             (* no such session any more, or expired: SessionNotFound *)
+             Queue.add { dm = mk_msg key !fresh_exid true true 'o' None; dmeta = None } inq;
+             run_until (t0 + timeout);
+             probes := "expired" :: !probes)) script;
+  run_until (!now + 1250);
+  (* --- what to compare *)
+  let shape = String.concat "" (List.sort compare (List.map (fun se ->
+    let k = int_of_n se.s_key in
+    Printf.sprintf "L%d[%s]" k (String.concat "," (List.map (fun o -> match o with
+      | None -> "-"
+      | Some e -> let (r, stc) = role_chars e.e_role in
+          Printf.sprintf "%d/%c/%c" (if k = 2 then 65535 else int_of_n e.e_id) r stc) (trim_free se.s_exchs)))) !st.sessions)) in
+  let unacked = List.length (List.filter (fun (_, key, exid) ->
+    let answered = List.mem (key, exid) !answered_ex || List.mem (key, -1) !answered_ex || List.mem key !closed_keys
+                   || (match find_key_sess !st (ni key) with None -> true | Some _ -> false) in
+    let still_owned = (match find_key_sess !st (ni key) with
+      | Some se -> List.exists (fun o -> match o with Some e -> int_of_n e.e_id = exid && e.e_role = RespOwned | None -> false) se.s_exchs
+      | None -> false) in
+    not answered && not still_owned) !opened) in
+  let d = List.sort compare !deliv in
+  Printf.sprintf "pred=%s/%s/%s/%d/%d/%s"
+    (String.concat "," (List.rev !probes))
+    (String.concat "," (List.map snd d))
+    (String.concat "," (List.map string_of_int (List.sort_uniq compare !replies)))
+    !xdrop unacked shape
+
 (* ---------------------------------------------------------------- E spec: handler logs *)
 
 (* deliv=<tag>:<psess>:<pexid>:<i|r>><hsess>:<hexid>:<I|R>,... *)
@@ -444,7 +795,7 @@ let () =
           | "P" :: id :: fields -> Printf.printf "P %s %s\n" id (run_p fields)
           | "S" :: id :: ops :: _ -> Printf.printf "S %s %s\n" id (run_s ops)
           | "S" :: id :: [] -> Printf.printf "S %s \n" id
-          | "E" :: id :: _ -> Printf.printf "E %s -\n" id
+          | "E" :: id :: fields -> Printf.printf "E %s %s\n" id (try predict_e fields with e -> "pred-error:" ^ Printexc.to_string e)
           | _ -> ()
         end
       end
